@@ -98,17 +98,37 @@ def run_harness(crate_dir, harness, flags, timeout, target=None, mem_gb=12):
 
 
 def concrete_playback(crate_dir, harness, flags, timeout, target=None):
+    """ask Kani for concrete values of every kani::any() of the failing harness (written into the
+    scratch copy of the harness file as unit tests), then re-execute those tests NATIVELY
+    (`cargo kani playback`: real code, no CBMC) and report which of them fail and how."""
     cmd = ["cargo", "kani", "-Z", "stubbing", "-Z", "function-contracts", "-Z", "concrete-playback",
-           "--concrete-playback=print", "--harness", harness, "--exact", "--output-format", "terse"] + flags
+           "--concrete-playback=inplace", "--harness", harness, "--exact", "--output-format", "terse"] + flags
     rc, out, err, dt = sh(cmd, cwd=crate_dir, env=kani_env(target), timeout=timeout)
-    m = re.search(r"```\s*\n(.*?)```", out, re.S)
-    if not m:
+    tests = re.findall(r"^\s*-\s*(kani_concrete_playback_[A-Za-z0-9_]+)", out, re.M)
+    if not tests:
         return None
-    test = m.group(1)
-    vals = []
-    for vm in re.finditer(r"//\s*(-?[0-9a-zA-Z_'\\.]+)\s*\n\s*vec!\[([0-9, ]*)\]", test):
-        vals.append({"value": vm.group(1), "bytes": [int(x) for x in vm.group(2).replace(" ", "").split(",") if x]})
-    return {"playback_test": test, "values": vals}
+    # collect the generated tests' concrete values from the harness file(s)
+    vals = {}
+    for root, _, files in os.walk(os.path.join(crate_dir, "src")):
+        for f in files:
+            if not f.endswith(".rs"):
+                continue
+            txt = open(os.path.join(root, f), errors="replace").read()
+            for t in tests:
+                m = re.search(r"fn %s\(\) \{(.*?)kani::concrete_playback_run" % re.escape(t), txt, re.S)
+                if m:
+                    vals[t] = re.findall(r"//\s*(\S+)\s*\n\s*vec!\[", m.group(1))
+    cmd2 = ["cargo", "kani", "playback", "-Z", "concrete-playback", "--", "kani_concrete_playback"]
+    rc2, out2, err2, dt2 = sh(cmd2, cwd=crate_dir, env=kani_env(target), timeout=max(timeout, 900))
+    text = out2 + "\n" + err2
+    results = {}
+    for t in tests:
+        m = re.search(r"test \S*%s \.\.\. (\w+)" % re.escape(t), text)
+        results[t] = m.group(1) if m else "not-run"
+    panics = re.findall(r"panicked at ([^\n]+):\n([^\n]+)", text)
+    return {"values": [{"test": t, "any_values": vals.get(t, []), "native_result": results[t]} for t in tests],
+            "native_panics": [{"at": re.sub(r"^.*?/src/", "src/", a), "message": b} for a, b in panics[:6]],
+            "replay": {"cmd": " ".join(cmd2), "failed_natively": [t for t in tests if results[t] == "FAILED"]}}
 
 
 def build_once(crate_dir, target=None, timeout=1500):
@@ -194,7 +214,11 @@ def run_harnesses(prop, crate_dir, specs, tier, target=None, jobs=6, where="incr
                 failed_desc.append(c)
                 obls.append(Obligation(oid, "kani", FAILED, detail=c["description"] + " @ " + c["location"], bound=bound, fn=spec.get("fn"), raw=json.dumps(c)))
             elif c["status"] in ("UNREACHABLE",):
-                obls.append(Obligation(oid, "kani", UNDECIDED, detail="assertion unreachable (vacuous harness?)", bound=bound, fn=spec.get("fn")))
+                # an assertion in a branch no input reaches holds vacuously; harness-level vacuity is
+                # guarded by the cover! statements and by requiring a reachable assertion below
+                o = Obligation(oid, "kani", okstat, bound=bound, fn=spec.get("fn"))
+                o.detail = "unreachable branch"
+                obls.append(o)
             else:
                 obls.append(Obligation(oid, "kani", UNDECIDED, detail="status " + c["status"], bound=bound, fn=spec.get("fn")))
         # aggregated safety obligation over the real code reached by the harness
@@ -214,6 +238,8 @@ def run_harnesses(prop, crate_dir, specs, tier, target=None, jobs=6, where="incr
             o = Obligation(oid, "kani", okstat, time_s=dt, bound=bound, fn=spec.get("fn"))
             o.detail = "%d CBMC checks in the real code" % len(other)
             obls.append(o)
+        if asserts and not any(c["status"] in ("SUCCESS", "FAILURE") for c in asserts):
+            obls.append(Obligation("%s/K/%s#reachability" % (prop, short), "kani", UNDECIDED, detail="no assertion of the harness is reachable (vacuous)", bound=bound, fn=spec.get("fn")))
         info["verdict"] = "fail" if n_fail else "ok"
         info["asserts"] = len(asserts)
         info["covers"] = len(covers)
@@ -227,6 +253,6 @@ def run_harnesses(prop, crate_dir, specs, tier, target=None, jobs=6, where="incr
                 info["witness"] = pb
                 for o in obls:
                     if o.status == FAILED and o.id.startswith("%s/K/%s#" % (prop, short)):
-                        o.witness = {"kani_values": pb["values"], "playback_test": pb["playback_test"]}
+                        o.witness = {"kani_values": pb["values"], "native_panics": pb["native_panics"], "replay": pb["replay"]}
         infos.append(info)
     return obls, infos, build_s
